@@ -338,3 +338,153 @@ pub fn seedfind(req: &Req) -> R<String> {
 	}
 	Ok(format!("seeds:{}", out.join(",")))
 }
+
+
+// ---- sizes of 2^32 and more (a 32-bit counter, cast or index anywhere on the way is only visible there) -------------------------------
+
+fn big_gen_words(gen: &str, seed: u64, pre32: usize) -> Option<Box<dyn FnMut() -> u64>> {
+	macro_rules! mk {
+		($g:expr) => {{
+			let mut r = $g;
+			for _ in 0..pre32 {
+				r.next_u32();
+			}
+			Some(Box::new(move || r.next_u64()) as Box<dyn FnMut() -> u64>)
+		}};
+	}
+	match gen {
+		"xoshiro" => mk!(Xoshiro256::from_seed(seed)),
+		"splitmix" => mk!(SplitMix64::from_seed(seed)),
+		"wyrand" => mk!(Wyrand::from_seed(seed)),
+		_ => None,
+	}
+}
+
+/// `bigfill gen=<xoshiro|splitmix|wyrand|chacha8|chacha20> seed=<s> pre32=<number of next_u32 draws first> len=<L> api=<fill_bytes|read>`:
+/// one fill of `L` bytes (4 GiB and more; zeroed lazily mapped memory). Answers, for the word generators, whether the bytes are the little-endian
+/// stream of the successive `next_u64` of a clone (`le:ok` / `le:<first differing byte>`); for all: the number of 4 KiB windows (every 1 MiB,
+/// plus the ends and both sides of every multiple of 2^32) that are still all zero, the reported length, and whether the generator afterwards
+/// continues like a clone that was advanced by chunked fills (word generators only).
+pub fn bigfill(req: &Req) -> R<String> {
+	use std::io::Read as _;
+	let gen = req.get("gen")?;
+	let seed = req.u64("seed")?;
+	let pre32 = req.usize("pre32")?;
+	let len = req.usize("len")?;
+	if len > (1usize << 33) + 4096 {
+		return Err(Bad);
+	}
+	let mut buf = vec![0u8; len];
+	let mut reported = String::from("-");
+	macro_rules! run {
+		($g:expr) => {{
+			let mut r = $g;
+			for _ in 0..pre32 {
+				r.next_u32();
+			}
+			match req.get("api")? {
+				"read" => {
+					reported = match r.read(&mut buf[..]) {
+						Ok(n) => n.to_string(),
+						Err(_) => "err".into(),
+					}
+				}
+				_ => {
+					r.fill_bytes(&mut buf[..]);
+				}
+			}
+			r.next_u64()
+		}};
+	}
+	let next = match gen {
+		"xoshiro" => run!(Xoshiro256::from_seed(seed)),
+		"splitmix" => run!(SplitMix64::from_seed(seed)),
+		"wyrand" => run!(Wyrand::from_seed(seed)),
+		"chacha8" => run!(ChaCha8::from_seed(seed)),
+		"chacha20" => run!(ChaCha20::from_seed(seed)),
+		_ => return Err(Bad),
+	};
+	// untouched windows
+	let mut starts: Vec<usize> = (0..len / (1 << 20)).map(|i| i << 20).collect();
+	let mut k = 1usize << 32;
+	while k <= len {
+		starts.push(k - 4096);
+		if k + 4096 <= len {
+			starts.push(k);
+		}
+		k += 1usize << 32;
+	}
+	if len >= 4096 {
+		starts.push(len - 4096);
+	}
+	let zero_windows = starts.iter().filter(|&&s| s + 4096 <= len && buf[s..s + 4096].iter().all(|&b| b == 0)).count();
+	// little-endian word stream (word generators)
+	let mut le = String::from("-");
+	let mut cont = String::from("-");
+	if let Some(mut words) = big_gen_words(gen, seed, pre32) {
+		le = "ok".into();
+		let mut i = 0usize;
+		while i < len {
+			let w = words().to_le_bytes();
+			let n = usize::min(8, len - i);
+			if buf[i..i + n] != w[..n] {
+				le = (i + (0..n).find(|&j| buf[i + j] != w[j]).unwrap()).to_string();
+				break;
+			}
+			i += 8;
+		}
+		if le == "ok" {
+			cont = if words() == next { "ok".into() } else { "differs".into() };
+		}
+	}
+	Ok(format!("le:{} zero_windows:{} of:{} ret:{} cont:{}", le, zero_windows, starts.len(), reported, cont))
+}
+
+/// `bigmulti n=<N> k=<k> seed=<s> gen=<..>`: `multiple(0..N, buf of k)` under a real generator; answers the k kept items
+pub fn bigmulti(req: &Req) -> R<String> {
+	let n = req.u64("n")?;
+	let k = req.usize("k")?;
+	let seed = req.u64("seed")?;
+	if k > 16 || n > (1u64 << 33) + 4096 {
+		return Err(Bad);
+	}
+	let mut buf = vec![u64::MAX; k];
+	macro_rules! go {
+		($g:expr) => {{
+			let mut r = $g;
+			r.multiple(0..n, &mut buf[..])
+		}};
+	}
+	let cnt = match req.opt("gen").unwrap_or("xoshiro") {
+		"xoshiro" => go!(Xoshiro256::from_seed(seed)),
+		"splitmix" => go!(SplitMix64::from_seed(seed)),
+		"wyrand" => go!(Wyrand::from_seed(seed)),
+		_ => return Err(Bad),
+	};
+	Ok(format!("ok:{}:{}", cnt, join(&buf, ",")))
+}
+
+/// `bigsingle n=<N> seed=<s> gen=<..>`: `single((0..N).filter(|_| true))` (no usable size hint: the reservoir path) under a real generator
+pub fn bigsingle(req: &Req) -> R<String> {
+	let n = req.u64("n")?;
+	let seed = req.u64("seed")?;
+	if n > (1u64 << 33) + 4096 {
+		return Err(Bad);
+	}
+	macro_rules! go {
+		($g:expr) => {{
+			let mut r = $g;
+			r.single((0..n).filter(|_| true))
+		}};
+	}
+	let res = match req.opt("gen").unwrap_or("xoshiro") {
+		"xoshiro" => go!(Xoshiro256::from_seed(seed)),
+		"splitmix" => go!(SplitMix64::from_seed(seed)),
+		"wyrand" => go!(Wyrand::from_seed(seed)),
+		_ => return Err(Bad),
+	};
+	Ok(match res {
+		Some(v) => format!("ok:{}", v),
+		None => "ok:none".into(),
+	})
+}
